@@ -58,7 +58,7 @@ def clampu(dt, u):
 # 20%, a long duplicate run reaching >= 80% cumulative, then outliers; needs few prefixes (low level)
 EXTRA_SHAPES = ["rl_wide"]
 SHAPES = ["constant", "two_pow2", "extremes", "lattice", "sparse", "poly", "uniform", "small", "clusters",
-          "sorted_dups", "floats_special", "two_lattices", "near_full", "walk"]
+          "sorted_dups", "floats_special", "two_lattices", "near_full", "walk", "zipf"]
 
 
 def gen(dt, shape, n, rng):
@@ -150,6 +150,21 @@ def gen(dt, shape, n, rng):
         for _ in range(n):
             v = ulo + (v + rng.randint(-step, step) - ulo) % (span + 1)
             us.append(v)
+    elif shape == "zipf":
+        # few distinct (single-valued-range) values with geometric frequencies: Huffman codes of
+        # different lengths on zero-width ranges
+        k = rng.randint(3, 12)
+        vals = sorted(set(rng.randint(ulo, uhi) for _ in range(k)))
+        if rng.random() < 0.5:
+            vals = [min(uhi, vals[0] + i * rng.choice([1, 2, 1000])) for i in range(len(vals))]
+        order = list(vals)
+        rng.shuffle(order)
+        us = []
+        for _ in range(n):
+            i = 0
+            while i < len(order) - 1 and rng.random() < 0.5:
+                i += 1
+            us.append(order[i])
     elif shape == "rl_wide":
         n = max(n, 1100)
         a = rng.randint(ulo, max(ulo, uhi - 1000))
